@@ -12,9 +12,15 @@ META = {
         '[min,max] (containment), and whether min and max are values of the curve at parameters in [0,1] (tightness).  The closed-form '
         'cubic branch (discriminant, both roots, the open-interval filter) is executed as is with math.sqrt mapped to a sqrt atom; the '
         'degenerate-cubic, quadratic and linear cases go through polyroots with np.roots replaced by an exact symbolic root finder '
-        'for degree <= 2 (contract: all roots).  Path.bbox: union of stub boxes.'),
-    'outside': ['Arc.bbox (critical angles, k range) needs the Angle domain: not covered yet', 'rounding', 'LAPACK accuracy behind np.roots'],
-    'assumptions': ['np.roots contract (exact roots, degree <= 2 here)'],
+        'for degree <= 2 (contract: all roots).  Path.bbox: union of stub boxes; and equal to the box of a fresh Path after every single in-place edit '
+        '(setitem/insert/del/slice/append/extend/pop/reverse/start=/end=) following a bbox() call.  Arc.bbox (vf/props/c08arc.py): the real Arc.bbox and '
+        'Arc.point run with exact degree arithmetic (pi = the angle of 180 degrees), cos/sin as an uninterpreted function of the degree value; '
+        'the oracle is the amplitude/phase form cx + R cos(a - beta) of each coordinate with monotonicity of cos on half periods instantiated '
+        'on every angle that occurs (UF + linear real arithmetic).'),
+    'outside': ['Arc.bbox: radii and rotation are concrete per family (rotations with rational cos/sin: 0, +-90, 180 and five Pythagorean angles; radii 2x1, 1x4, circle); theta, delta, centre symbolic', 'rounding', 'LAPACK accuracy behind np.roots'],
+    'assumptions': ['np.roots contract (exact roots, degree <= 2 here)',
+                    'Arc: A cos a + B sin a = R cos(a - atan2(B, A)); cos monotone on [180j, 180(j+1)]; atan of a concrete rational enclosed to 1e-11 degrees; '
+                    'Arc state satisfies start = point(theta), end = point(theta + delta), -180 <= theta <= 180, 0 < |delta| < 360'],
 }
 
 
@@ -246,4 +252,14 @@ def families(tier):
             ('quadratic', M, 'fam_minmax', {'deg': 2, 'degenerate': False}),
             ('line', M, 'fam_line', {})]
     fams += [('path-n%d' % n, M, 'fam_path', {'n': n}) for n in (1, 2, 3)]
+    # Path.bbox after in-place edits of the path (a box computed before the edit must not survive it): shared with C16
+    from .c16 import ops_alphabet
+    fams.append(('after-mutation', 'vf.props.c16', 'fam_path_history', {'k': 1, 'first_ops': ops_alphabet(), 'prequery': True}))
+    combos = [('rot0', '2x1'), ('rot53', '2x1'), ('rot113', '1x4'), ('rot-37', 'circle'), ('rot90', '1x4')]
+    if tier == 'thorough':
+        from .c08arc import ROTS, RADII
+        combos = [(r, q) for r in ROTS for q in RADII]
+    for r, q in combos:
+        for sg in (1, -1):
+            fams.append(('arc-%s-%s-%s' % (r, q, 'ccw' if sg > 0 else 'cw'), 'vf.props.c08arc', 'fam_arc_bbox', {'rot': r, 'radii': q, 'sign': sg}))
     return fams
